@@ -1,6 +1,7 @@
 pub mod evidence;
 pub mod explore;
 pub mod findings;
+pub mod oovref;
 pub mod panics;
 pub mod refmodel;
 pub mod worlds;
